@@ -22,6 +22,44 @@ type Checker struct {
 	// Tweak optionally memoises the last taproot commitment check (a pure
 	// function of its inputs); nil disables.
 	Tweak *TweakMemo
+	// Quirks switches on emulations of known btcd deviations.  They are NEVER used
+	// for the oracle (which runs with Quirks == 0); the check uses them only to
+	// label a disagreement with the deviation that explains it.
+	Quirks Quirks
+}
+
+// Quirks is a bit set of emulated btcd deviations from Core (classification only).
+type Quirks uint32
+
+const (
+	// QuirkBtcdBER: without DERSIG/STRICTENC btcd parses signatures with its own
+	// BER-ish parser (single-byte lengths, exact sequence length, no trailing bytes
+	// inside the sequence) instead of Core's lax DER parser.
+	QuirkBtcdBER Quirks = 1 << iota
+	// QuirkNoFindAndDeleteEmptySig: btcd's removeOpcodeByData returns early for an
+	// empty signature, Core's FindAndDelete removes every OP_0 from the script code.
+	QuirkNoFindAndDeleteEmptySig
+	// QuirkNullFailSkippedOnParseError: btcd's OP_CHECKSIG pushes false without the
+	// NULLFAIL check when the public key or the (DER-valid) signature fails to parse.
+	QuirkNullFailSkippedOnParseError
+	// QuirkMultisigSkipsKeyEncoding: btcd's OP_CHECKMULTISIG moves to the next key
+	// before checkPubKeyEncoding when the signature is empty or fails to parse.
+	QuirkMultisigSkipsKeyEncoding
+	// QuirkTapscriptEmptySigUnknownKey: btcd pushes an empty vector for an empty
+	// signature before looking at the public key type (no DISCOURAGE_UPGRADABLE_PUBKEYTYPE).
+	QuirkTapscriptEmptySigUnknownKey
+)
+
+// QuirkNames lists the quirks for reporting.
+var QuirkNames = []struct {
+	Q    Quirks
+	Name string
+}{
+	{QuirkBtcdBER, "prebip66-ber-signature-parser"},
+	{QuirkNoFindAndDeleteEmptySig, "findanddelete-ignores-empty-signature"},
+	{QuirkNullFailSkippedOnParseError, "nullfail-skipped-when-key-or-sig-unparseable"},
+	{QuirkMultisigSkipsKeyEncoding, "checkmultisig-skips-pubkey-encoding-check"},
+	{QuirkTapscriptEmptySigUnknownKey, "tapscript-empty-sig-skips-unknown-pubkey-type"},
 }
 
 // TweakMemo is a one-entry memo for checkTapTweak.
@@ -75,12 +113,15 @@ func (c *Checker) checkSequence(n int64) bool {
 }
 
 // checkECDSASignature is GenericTransactionSignatureChecker::CheckECDSASignature.
-func (c *Checker) checkECDSASignature(sigIn, pubkey, scriptCode []byte, sv sigVersion) bool {
+func (c *Checker) checkECDSASignature(sigIn, pubkey, scriptCode []byte, sv sigVersion, flags Flags) bool {
 	if len(sigIn) == 0 {
 		return false
 	}
 	hashType := uint32(sigIn[len(sigIn)-1])
 	sig := sigIn[:len(sigIn)-1]
+	if c.Quirks&QuirkBtcdBER != 0 && flags&(DERSIG|STRICTENC) == 0 && !btcdBERAccepts(sig) {
+		return false
+	}
 	var digest [32]byte
 	if sv == sigWitnessV0 {
 		digest = WitnessV0SigHash(scriptCode, c.Tx, c.Idx, hashType, c.Amount)
@@ -133,7 +174,7 @@ func sigErrName(e sigErr) Err {
 
 func evalChecksigPreTapscript(sig, pubkey, script []byte, codeBegin int, flags Flags, c *Checker, sv sigVersion) (bool, Err) {
 	scriptCode := script[codeBegin:]
-	if sv == sigBase {
+	if sv == sigBase && !(c.Quirks&QuirkNoFindAndDeleteEmptySig != 0 && len(sig) == 0) {
 		var found int
 		scriptCode, found = FindAndDelete(scriptCode, PushData(sig))
 		if found > 0 && flags&CONST_SCRIPTCODE != 0 {
@@ -146,7 +187,10 @@ func evalChecksigPreTapscript(sig, pubkey, script []byte, codeBegin int, flags F
 	if e := checkPubKeyEncoding(pubkey, flags, sv); e != sigOK {
 		return false, sigErrName(e)
 	}
-	success := c.checkECDSASignature(sig, pubkey, scriptCode, sv)
+	success := c.checkECDSASignature(sig, pubkey, scriptCode, sv, flags)
+	if !success && c.Quirks&QuirkNullFailSkippedOnParseError != 0 && len(sig) != 0 && btcdParseFails(sig[:len(sig)-1], pubkey, flags) {
+		return false, ""
+	}
 	if !success && flags&NULLFAIL != 0 && len(sig) != 0 {
 		return false, "SIG_NULLFAIL"
 	}
@@ -163,6 +207,8 @@ func evalChecksigTapscript(sig, pubkey []byte, ex *execData, flags Flags, c *Che
 	}
 	if len(pubkey) == 0 {
 		return false, "PUBKEYTYPE"
+	} else if c.Quirks&QuirkTapscriptEmptySigUnknownKey != 0 && !success {
+		return false, ""
 	} else if len(pubkey) == 32 {
 		if success {
 			if e := c.checkSchnorrSignature(sig, pubkey, sv, ex); e != "" {
@@ -189,12 +235,6 @@ func boolBytes(b bool) []byte {
 		return []byte{1}
 	}
 	return []byte{}
-}
-
-// Limits observed during the last EvalScript, for the resource-bound clauses.
-type Trace struct {
-	MaxStack int // max combined stack+altstack seen after an instruction
-	MaxOps   int // max op count reached
 }
 
 // EvalScript is Core's EvalScript.  The stack is modified in place.
@@ -255,7 +295,7 @@ func EvalScript(stackp *[][]byte, script []byte, flags Flags, c *Checker, sv sig
 			if requireMinimal && !CheckMinimalPush(data, op) {
 				return "MINIMALDATA"
 			}
-			push(append([]byte{}, data...))
+			push(data)
 		} else if fExec || (OP_IF <= op && op <= OP_ENDIF) {
 			switch op {
 			case OP_1NEGATE, OP_1, OP_1 + 1, OP_1 + 2, OP_1 + 3, OP_1 + 4, OP_1 + 5, OP_1 + 6, OP_1 + 7,
@@ -768,7 +808,7 @@ func EvalScript(stackp *[][]byte, script []byte, flags Flags, c *Checker, sv sig
 				}
 				scriptCode := script[codeBegin:]
 				for k := 0; k < nSigs; k++ {
-					if sv == sigBase {
+					if sv == sigBase && !(c.Quirks&QuirkNoFindAndDeleteEmptySig != 0 && len(top(-isig-k)) == 0) {
 						var found int
 						scriptCode, found = FindAndDelete(scriptCode, PushData(top(-isig-k)))
 						if found > 0 && flags&CONST_SCRIPTCODE != 0 {
@@ -783,10 +823,13 @@ func EvalScript(stackp *[][]byte, script []byte, flags Flags, c *Checker, sv sig
 					if e := checkSignatureEncoding(sig, flags); e != sigOK {
 						return sigErrName(e)
 					}
-					if e := checkPubKeyEncoding(pk, flags, sv); e != sigOK {
-						return sigErrName(e)
+					skipKeyEnc := c.Quirks&QuirkMultisigSkipsKeyEncoding != 0 && (len(sig) == 0 || btcdSigParseFails(sig[:len(sig)-1], flags))
+					if !skipKeyEnc {
+						if e := checkPubKeyEncoding(pk, flags, sv); e != sigOK {
+							return sigErrName(e)
+						}
 					}
-					if c.checkECDSASignature(sig, pk, scriptCode, sv) {
+					if c.checkECDSASignature(sig, pk, scriptCode, sv, flags) {
 						isig++
 						nSigs--
 					}
